@@ -1,10 +1,9 @@
-SPECIFICATION Spec
+SPECIFICATION LemmaSpec
 CONSTANTS
   Keys <- MCKeys
   Vals = {1, 2}
   Top = 2
   MaxBatch = 2
   Variant = "plusone"
-INVARIANTS TypeOK Lemma
-PROPERTIES BatchInvisible
+INVARIANTS Lemma
 CHECK_DEADLOCK FALSE
